@@ -18,6 +18,9 @@ func TestMain(m *testing.M) {
 		Rule: "rapid-generated schemas (1-3 tables: single/composite/AUTO_INCREMENT keys, NOT NULL, VARCHAR/BLOB maxima, CHECKs, unique and plain indexes) " +
 			"and DDL/DML histories over small value pools (INSERT, UPSERT, ON CONFLICT DO NOTHING/UPDATE, UPDATE, DELETE then re-insert, CREATE [UNIQUE] INDEX / " +
 			"ADD / DROP / RENAME COLUMN and DROP CONSTRAINT (named and engine-named CHECKs; committed, rolled back or aborted) on populated tables, reopen), run as autocommit statements, interactive transactions, BEGIN…COMMIT blocks or engine.NewTx, " +
+			"sessions that hold a read-write transaction open (reading only, or idle) across the DDL commits of other sessions - schema set-up and windows of " +
+			"back-to-back DDL, also right after a reopen, with no query of the harness in between - then commit or roll back, followed by fresh sessions inserting " +
+			"duplicates for the unique indexes created meanwhile, and a final audit on a re-opened engine; " +
 			"and rounds of 2-4 concurrent sessions (scheduled interleavings and free-running goroutines). After every transaction the tables are scanned through the " +
 			"primary index: invariants of the property + equality with a reference interpreter (commit order for concurrent sessions). " +
 			"Non-trivial: a statement was rejected for a constraint and a later statement on the same table was accepted, or two concurrent sessions " +
@@ -247,7 +250,12 @@ func TestHistories(t *testing.T) {
 	vk.Check(t, 480, 16000, func(rt *rapid.T, c *vk.Case) {
 		h := newHarness(rt, c)
 		defer h.close()
-		later := h.setupSchema(rapid.IntRange(1, 3).Draw(rt, "nTables"), false)
+		var later map[string]*[]index
+		if chance(rt, "setupWithHolders", 45) {
+			later = h.setupSchemaStraddled(rapid.IntRange(1, 3).Draw(rt, "nTables"))
+		} else {
+			later = h.setupSchema(rapid.IntRange(1, 3).Draw(rt, "nTables"), false)
+		}
 		budget := rapid.IntRange(12, maxStmts).Draw(rt, "budget")
 		for iter := 0; h.nStmts < budget && iter < 3*maxStmts && !h.stop; iter++ {
 			if chance(rt, "reopen", 4) {
@@ -260,7 +268,19 @@ func TestHistories(t *testing.T) {
 				h.verify("after reopen")
 				continue
 			}
+			if chance(rt, "window", 7) {
+				h.window(later)
+				continue
+			}
 			h.runTx(later, true)
+		}
+		if !h.stop {
+			// final audit on a re-opened engine: nothing cached, the schema is read back from the store
+			if err := h.db.Reopen(h.db.Opts); err != nil {
+				h.failf("reopen: %v", err)
+			}
+			h.logf("-- reopen (final audit)")
+			h.verify("final audit after re-opening the engine")
 		}
 		if h.nontriv {
 			c.Label("reject-then-accept-same-table")
